@@ -51,6 +51,39 @@ static inline int vp_lapack_ok(rci_t const *P, int length, int dim) {
   (VP_HDR(A) && VP_NONEMPTY(A) && (P)->length == (A)->ncols && vp_lapack_ok((P)->values, (P)->length, (A)->ncols) && VP_GHOST_OK(A, vg_r, vg_w) && VP_GBIT_OK &&   \
    VP_IMP(VP_GCELL(A, 0), vg_src == vp_src_tri((P)->values, (P)->length, vg_r, VP_GCOL)))
 
+/* ------------------------------------------------------------------ _mzd_compress_l(A, r1, n1, r2)
+ * the compression step of the block-recursive PLE (ple.c).  From the call site: n1 is a multiple of 64,
+ * r1 <= n1 is the rank of the left half, r2 the rank of the right half, and in the rows below r1 + r2
+ * everything right of column n1 + r2 is zero.  Cells: rows < r1 stay; row r1 + k (k < r2) has the column
+ * pairs (r1 + j, n1 + j), j = 0..k, swapped in that order; in rows >= r1 + r2 the cells [n1, n1 + r2)
+ * move to [r1, r1 + r2) and [r1 + r2, n1 + r2) becomes zero.  Nothing outside the cells of A changes. */
+#define VP_SRC_ZERO (-1)
+static inline int vp_src_compress(int r1, int n1, int r2, int row, int c) {
+  if (r1 == n1 || row < r1) return c;
+  if (row < r1 + r2) {
+    for (int j = row - r1; j >= 0; --j) c = VP_SWAP_IDX(c, r1 + j, n1 + j);
+    return c;
+  }
+  if (c < r1) return c;
+  if (c < r1 + r2) return n1 + (c - r1);
+  if (c < n1 + r2) return VP_SRC_ZERO;
+  return c;
+}
+/* the rows below r1 + r2 are zero from column n1 + r2 on (concrete-index scan) */
+static inline int vp_compress_tail_zero(mzd_t const *A, int r1, int n1, int r2) {
+  int ok = 1;
+  for (int r = r1 + r2; r < A->nrows; ++r)
+    for (int w = 0; w < A->width; ++w) ok = ok && (VP_W(A, r, w) & VP_CELLMASK(A, w) & VP_FROMCOL(n1 + r2, w)) == 0;
+  return ok;
+}
+#define REQ__mzd_compress_l(A, r1, n1, r2)                                                         \
+  (VP_HDR(A) && VP_NONEMPTY(A) && 0 <= (r1) && (r1) <= (n1) && (n1) % 64 == 0 && (n1) < (A)->ncols && 0 <= (r2) && (n1) + (r2) <= (A)->ncols &&   \
+   (r1) + (r2) <= (A)->nrows && vp_compress_tail_zero(A, r1, n1, r2) && VP_GHOST_OK(A, vg_r, vg_w) && VP_GBIT_OK &&                                \
+   VP_IMP(VP_GCELL(A, 0), vg_src == vp_src_compress(r1, n1, r2, vg_r, VP_GCOL)))
+#define ENS1__mzd_compress_l(A, r1, n1, r2)                                                        \
+  VP_IMP(VP_GCELL(A, 0), VP_BITOF(VP_G(A), vg_b) == (vg_src == VP_SRC_ZERO ? 0 : VP_OLDBIT_AT(A, vg_r, VP_CLAMP(vg_src, 0, (A)->ncols - 1))))
+#define ENS2__mzd_compress_l(A, r1, n1, r2) VP_IMP(!VP_GCELL(A, 0), VP_BITOF(VP_G(A), vg_b) == VP_BITOF(VP_G0(A), vg_b))
+
 #ifndef VP_NATIVE
 void mzd_apply_p_left(mzd_t *A, mzp_t const *P)
 __CPROVER_requires(REQ_apply_p_left(A, P, vp_src_asc))
@@ -94,5 +127,10 @@ __CPROVER_requires(REQ_apply_p_right_tri(A, P))
 __CPROVER_assigns(__CPROVER_object_whole(A->data))
 __CPROVER_ensures(ENS1_apply_p_right(A, P, 0))
 __CPROVER_ensures(ENS2_apply_p_right(A, P, 0));
+void _mzd_compress_l(mzd_t *A, rci_t r1, rci_t n1, rci_t r2)
+__CPROVER_requires(REQ__mzd_compress_l(A, r1, n1, r2))
+__CPROVER_assigns(__CPROVER_object_whole(A->data))
+__CPROVER_ensures(ENS1__mzd_compress_l(A, r1, n1, r2))
+__CPROVER_ensures(ENS2__mzd_compress_l(A, r1, n1, r2));
 #endif
 #endif
